@@ -1,6 +1,8 @@
 (* OCaml driver for the extracted C15 development (RevMoveGen model + Spec-level statements).
      rev_driver model    stdin "<incl 0|1> <raw>"                         -> "L=<un-move list in generation order>"
-     rev_driver spec     stdin "C <incl> <rawP> | <move> | <rawQ> | <list>" -> completeness of the listed un-moves at (P, m)
+     rev_driver spec     stdin "C <incl> <rawP> | <move> | <rawQ> | <list>" -> completeness of the listed un-moves at (P, m);
+                               also mf/wfr/raw: the hypotheses MoveFacts, WFrev (executable part) and
+                               "m is in the model's raw reverse move list of Q" of the Coq theorems, evaluated
                                "U <rawQ> | <unmove> | <rawPrev>"            -> consistency of one listed un-move
    <raw>    = 64 board characters a1..h8 ('.' empty, KQRBNPkqrbnp) <w|b> <castleMask> <epSquare|-1>
    <move>   = e2e4, promotions e7e8Q / e2e1q (piece letter of the promoted piece, case = colour)
@@ -91,10 +93,16 @@ let spec_main () =
                  let m = parse_move mv in
                  let listed = parse_sun_list lst in
                  let ((cap, cm), ep) = expected_undo p m in
-                 Printf.printf "C ok=%d req=%d dom=%d legal=%d step=%d exp=%d:%d:%d\n"
+                 (* hypotheses of the Coq theorems, evaluated on the model position of P *)
+                 let rp' = parse_raw rp in
+                 let pp = positionOfBoard rp'.board rp'.wtm rp'.cm rp'.ep in
+                 let mf = moveFactsb pp m and wfr = wfrevb zkDummy pp in
+                 let qq = fixupEPSquare zkDummy (fst (makeMove zkDummy pp m)) in
+                 let raw = List.mem m (revMoveList qq) in
+                 Printf.printf "C ok=%d req=%d dom=%d legal=%d step=%d exp=%d:%d:%d mf=%d wfr=%d raw=%d\n"
                    (b2i (complete_at p m incl listed)) (b2i (complete_required p m incl)) (b2i (rev_domain p))
                    (b2i (legal_specb p m)) (b2i (spos_eqb (step_spec p m) q))
-                   (int_of_n cap) (int_of_n cm) (int_of_z ep)
+                   (int_of_n cap) (int_of_n cm) (int_of_z ep) (b2i mf) (b2i wfr) (b2i raw)
              | _ -> print_endline "C bad-input")
         | 'U' ->
             (match fields body with
